@@ -251,8 +251,8 @@ EXTRA = {
     "C03": " All four builds (dynamic 0/1 with contact model 1, dynamic 0 with contact models 0 and 2) in both tiers; every other behaviour on cells with unused slots before live nodes. Every third behaviour is replayed with mass, momentum, force and damping coefficient scaled by 2^-60 or 2^40 (the law is homogeneous in them: same positions).",
     "C04": " Removal scripts with neighbouring cells, runs of cells and whole populations below their minimum volume in one iteration. Growth rates of 5e-20 ... 3e-16 as well as the shipped magnitudes.",
     "C05": " The enumeration must contain, for each of the 12 guard conjuncts of the kernel that can matter, a case on which the kernel with that conjunct dropped answers differently (state component `kills`; the check refuses an inadequate enumeration). Thin triangles (ClosestPointThin: planar needles / flat triangles up to aspect ratio 2^15, interior query points; formula proved equal to the kernel transcription on the members that fit TLC's integers) compared on the closest point with a tolerance of 1e-5 of the long side. Placements with separations of 1e-8..1e-9 of the coordinate magnitude. Placements at the units 2^-22, 2^-24 (the scale of real meshes), 2^-40 and 2^20.",
-    "C06": " A tissue with more than 131072 faces (finely meshed bystander listed first); the contact phase right after real edge splits against a reference with refreshed cached normals. Every tissue also through a contact-model object re-used from the previous tissues. Tissues of freshly built cells and of cells with unused slots inside their lists; cell identifiers equal to, rotated against and unrelated to list positions; all three contact models in both tiers.",
-    "C07": " Second stage: a whole contact phase (contact_model::run) on tissues (fresh / fragmented cells, identifiers equal to / rotated against / unrelated to positions) must equal the sum of the pair rule over the node-triangle pairs of different cells and add up to zero; all three contact models in both tiers. Pair cases also at the units 2^-27 and 2^-34 (penetrations far below any absolute tolerance). Third stage: the coupling protocol of the node-node coupling model between two epithelial cells (spec/Contact/CouplingRule, Coupling): TLC explores every order of the presentations (node, opposing triangle) for five lattice placements (68500 states; DistMatches, OtherCell, WithinCut, Uncoupled, StaleOnlyIfStolen, MutualNearestCoupled, HistExplains, DistMonotone) and every state (quick: 5800) is replayed presentation by presentation through the real resolve_contact; partner and stored distance of all nodes must be what the specification computes (CouplingTrace).",
+    "C06": " A tissue with more than 131072 faces (finely meshed bystander listed first); the contact phase right after real edge splits against a reference with refreshed cached normals. Every tissue also through a contact-model object re-used from the previous tissues. Tissues of freshly built cells and of cells with unused slots inside their lists; cell identifiers equal to, rotated against and unrelated to list positions; all three contact models in both tiers. Coarse cells whose triangles are three to four voxels long, with a small cell dipping into the middle of a side (interior voxels of a face's padded box).",
+    "C07": " Second stage: a whole contact phase (contact_model::run) on tissues (fresh / fragmented cells, identifiers equal to / rotated against / unrelated to positions) must equal the sum of the pair rule over the node-triangle pairs of different cells and add up to zero; all three contact models in both tiers. Pair cases also at the units 2^-27 and 2^-34 (penetrations far below any absolute tolerance). Third stage: the coupling protocol of the node-node coupling model between two epithelial cells (spec/Contact/CouplingRule, Coupling): TLC explores every order of the presentations (node, opposing triangle) for five lattice placements (68500 states; DistMatches, OtherCell, WithinCut, Uncoupled, StaleOnlyIfStolen, MutualNearestCoupled, HistExplains, DistMonotone) and every state (quick: 5800) is replayed presentation by presentation through the real resolve_contact; partner and stored distance of all nodes must be what the specification computes (CouplingTrace). Two whole contact phases on the same cells, one cell shrunk and moved far away in between: the second phase starts from Fresh (CouplingPhaseTrace).",
     "C08": " Both coupling contact models (1 and 2) in both tiers; histories with a division and a removal in the same iteration (every arrangement of removed / dividing / ordinary cell, and two of each); the contact phase on a population of 65538 cells (BigPopTrace); the identifier discipline proved for any population size with TLAPS (spec/Tissue/IdAlloc, 20 obligations) and the refinement Tissue => IdAlloc checked by TLC; the decision of special_polarization_update (spec/Tissue/Polarisation) replayed into the real function (index range is the verdict, decision differences are design drift).",
     "C09": " Scenario with successive division rounds on one identifier counter (daughters of an earlier round alive and dividing in a later one). TissueTrace prints every tag set (ReportAll) because TLC names only the first violated invariant of a state. Division axes at 1, 0.6 and 0.01 degree from a coordinate axis.",
     "C11": " Whole passes on lattice cells (exact arithmetic) are validated against spec/Refine/RefinePass: the work set of the pass is not logged, the specification carries it (Cantor order, copies of the face ids), and the real pass must be one of its behaviours, end as it ends (normally / by the exception, same counter) and leave the mesh slot for slot and the positions it predicts (drift-level: D_PassModel); TLC explores every order in which the work set can be emptied on small cells (TodoCoherent, C01's predicates after every step, Complete, liveness). Passes on a family of thin tetrahedra whose slivers ask for swaps that swap_edge has to refuse (joined opposite nodes, no valence-three node): a refused swap must leave the mesh as it is. Real passes also on nanometre-scale cells with a first pass that splits about half of the edges.",
@@ -264,7 +264,7 @@ EXTRA = {
     "C18": " 'Govern the run': density / damping / time step through a replay of spec/Integrate's behaviours into the real integrator; bulk modulus, tensions, area-elasticity and bending moduli through the energy-gradient oracle of C02 on generic cells with different values per face type. The two parameters consumed before the first iteration (perform_initial_triangulation, min_edge_length) through the XML constructor of the real simulation_initializer: flag 0 / 1 x coarse / fine edge length on a two-cell file, validated against spec/Io/StartupTrace. Real solver runs of the same growing tissue with three values of min_edge_length must end with more nodes the smaller the value (StartupTrace.P_EdgeLengthGovernsTheRun); that no edge is longer than three minimum edge lengths after a pass that ended normally is checked as design drift only (the factor is the solver's choice). A sampling period equal to the time step (case kind eqstep of Io/Params: accepted, value intact).",
     "C19": " The identifier arrays inside the files (cell_id of the cell-data file, runs of face_cell_id of the face-data file) are extracted by the driver and compared by TissueTrace with the population alive when the pair was written. Durations that the accumulated time hits bit for bit (C19_StopsWhenTReached: no iteration starts once T is reached). Populations made of static / ECM cells only (from the start, and after the last mobile cell was removed): time still advances by dt per iteration.",
     "C15": " Adversarial schedules (every dividing cell on its own thread, started in reverse order of list position) besides the random ones. The exception funnel under load (4000 items throwing at once, 8 threads, 12 [60] rounds); the determinism tissue is heterogeneous and is also run with its cells listed in the opposite order at one thread (same per-cell end states required). Mesh output phase: spec/Parallel/WriteSections (compaction joined before the two concurrent file sections: NoReadDuringCompaction, FilesAgree, termination under every schedule; the design that compacts inside a section is refuted) and real mesh_writer::write calls on coarsened cells with 16000 free slots at 1, 2, 3, 8 threads, repeated: both files byte-identical (digest) to the single-threaded call, validated by TLC (WriteTrace).",
-    "C20": " Every case is also answered by grids re-used from case to case through update_dimensions, which must answer like the fresh ones (P_Reuse); embeddings with a unit that is not a power of two (all coordinates rounded, extents rounded multiples of the voxel size) are replayed too, with a distance of exactly one voxel size left to rounding. The grids are also exercised with the simulator's structured element type (every object placed into an occupied voxel of uspg_3d; field-by-field read-back, P_StructRetrievable); the quick enumeration contains boxes that are flat as well as tall.",
+    "C20": " Every case is also answered by grids re-used from case to case through update_dimensions, which must answer like the fresh ones (P_Reuse); embeddings with a unit that is not a power of two (all coordinates rounded, extents rounded multiples of the voxel size) are replayed too, with a distance of exactly one voxel size left to rounding. The grids are also exercised with the simulator's structured element type (every object placed into an occupied voxel of uspg_3d; field-by-field read-back, P_StructRetrievable); the quick enumeration contains boxes that are flat as well as tall. The automatic polarizer's own grid: the box that the real update_grid_dimensions declares must contain every node it stores (36 elongated cells, far tip listed first / second / last, six directions, two scales; PolarGridTrace).",
 }
 for _k, _v in EXTRA.items():
     CHECKS[_k]["text"] += _v
